@@ -91,8 +91,8 @@ LLVMFuzzerTestOneInput(const uint8_t* data, size_t size)
   verif::counters& c = verif::ctr();
   if (++c.execs % 500 == 0)
     c.dump();
-  char path[64];
-  snprintf(path, sizeof path, "/tmp/verif-elf-%d", (int) getpid());
+  char path[512];
+  snprintf(path, sizeof path, "%s/verif-elf-%d", getenv("VERIF_FUZZ_TMP") ? getenv("VERIF_FUZZ_TMP") : "/tmp", (int) getpid());
   {
     std::ofstream o(path, std::ios::binary | std::ios::trunc);
     o.write((const char*) data, size);
